@@ -1,7 +1,7 @@
 /-
 M6 (part 2) `Gen` — the value generators `generate_true` / `generate_false`
 (predicate/generator/{helpers,generate_true,generate_false}.py, *after* the fix diffs
-fixes/gen-*.diff) as first-order generator states `G` with a pull semantics driven by a tape.
+fixes/gen-*.diff, including the phase-2 ones gen-notin-fallback and gen-unhashable-set) as first-order generator states `G` with a pull semantics driven by a tape.
 
 No import outside core Lean (compiled into `driver_gen`).
 
@@ -31,7 +31,7 @@ import PyPred.Model.GenVal
 namespace PyPred
 namespace Gen
 
-open GVal (pyEq truthy hashable mkSet dictSet sortKey)
+open GVal (pyEq truthy hashable hashableL mkSet dictSet sortKey)
 open PyVal (Klass)
 
 /-! ### The random source -/
@@ -260,6 +260,17 @@ def applyMap : MapFn → GVal → Except Err GVal
   | .mergeKey k, .tuple [.dict items, v] => if hashable k then .ok (.dict (dictSet items k v)) else .error .typeError
   | _, _ => .error (.other 0)
 
+/-- The list round of `generate_true(all_p)`: `values = take(n, …)`, stop on an empty pool, else
+`yield list(random_combination_with_replacement(values, n))`. -/
+def allList (step : G → Tape → Res) (tmpl : G) (n : Nat) (t : Tape) : Res :=
+  match takeWith step n tmpl t with
+  | .ok [] t2 => .stop t2
+  | .ok vals t2 =>
+    let (xs, t3) := comb vals n t2
+    .yield (.list xs) (.allT tmpl 1 0) t3
+  | .error e => .error e
+  | .starved => .starved
+
 /-- One `next()`. -/
 def pull : Nat → G → Tape → Res
   | 0, _, _ => .starved
@@ -376,20 +387,13 @@ def pull : Nat → G → Tape → Res
       match takeWith (pull fuel) n tmpl t with
       | .ok [] t2 => .stop t2
       | .ok vals t2 =>
-        let (xs, t3) := comb vals n t2
-        match mkSet xs with
-        | .ok s => .yield s (.allT tmpl 3 n) t3
-        | .error e => .error e
+        if hashableL vals then        -- `if all_hashable(values):` (fixes/gen-unhashable-set.diff)
+          let (xs, t3) := comb vals n t2
+          .yield (.set (GVal.dedup xs)) (.allT tmpl 3 n) t3
+        else allList (pull fuel) tmpl n t2   -- the set variant is skipped: on to the list round, in the same `next()`
       | .error e => .error e
       | .starved => .starved
-    | .allT tmpl _ n =>
-      match takeWith (pull fuel) n tmpl t with
-      | .ok [] t2 => .stop t2
-      | .ok vals t2 =>
-        let (xs, t3) := comb vals n t2
-        .yield (.list xs) (.allT tmpl 1 0) t3
-      | .error e => .error e
-      | .starved => .starved
+    | .allT tmpl _ n => allList (pull fuel) tmpl n t
     | .anyT tmpl =>
       match takeWith (pull fuel) 10 tmpl t with
       | .ok [] t2 => .stop t2
@@ -400,21 +404,19 @@ def pull : Nat → G → Tape → Res
       | .starved => .starved
     | .anyT2 [] => .stop t   -- not reachable: `anyT` stops on an empty pool
     | .anyT2 vals =>
-      let (xs, t3) := comb vals 5 t
-      match mkSet xs with
-      | .ok s => .yield s (.ofList []) t3
-      | .error e => .error e
+      if hashableL vals then
+        let (xs, t3) := comb vals 5 t
+        .yield (.set (GVal.dedup xs)) (.ofList []) t3
+      else .stop t
     | .setOfT tmpl =>
       let (n, t1) := t.randint 0 10
       match takeWith (pull fuel) n.toNat tmpl t1 with
       | .ok vals t2 =>
-        match mkSet vals with
-        | .ok (.set ys) =>
-          if ys.length == n.toNat then
-            .yield (.tuple (sortKey ys)) (.setOfT tmpl) (t2.note .sample ys.length ys.length)
-          else pull fuel (.setOfT tmpl) t2
-        | .ok _ => .error (.other 2)
-        | .error e => .error e
+        -- `if all_hashable(values) and len(result := set(values)) == length:`
+        if hashableL vals && (GVal.dedup vals).length == n.toNat then
+          let ys := GVal.dedup vals
+          .yield (.tuple (sortKey ys)) (.setOfT tmpl) (t2.note .sample ys.length ys.length)
+        else pull fuel (.setOfT tmpl) t2
       | .error e => .error e
       | .starved => .starved
     | .allF tmpl =>
@@ -428,12 +430,13 @@ def pull : Nat → G → Tape → Res
       | .starved => .starved
     | .setOfF tmpl =>
       match takeWith (pull fuel) 10 tmpl t with
-      | .ok [] t2 => .stop t2
       | .ok vals t2 =>
-        let (xs, t3) := comb vals 5 t2
-        match mkSet xs with
-        | .ok s => .yield s (.ofList []) t3
-        | .error e => .error e
+        -- `[value for value in take(10, …) if all_hashable((value,))]`
+        match vals.filter hashable with
+        | [] => .stop t2
+        | hv =>
+          let (xs, t3) := comb hv 5 t2
+          .yield (.set (GVal.dedup xs)) (.ofList []) t3
       | .error e => .error e
       | .starved => .starved
 
@@ -460,9 +463,10 @@ def powerset (s : List GVal) : List GVal :=
   ((List.range (s.length + 1)).map (fun r => (combos r s).map GVal.set)).flatten
 
 /-- The `for item in predicate.v: match item: case int(): … case str(): …` loop of
-`generate_not_in` / `generate_false(in_p)`: the first int or str member decides. -/
+`generate_not_in` / `generate_false(in_p)`: the first int or str member decides; without one the
+clause falls back to `generate_anys`. -/
 def byFirstMember (p : GP) (neg : Bool) : List GVal → G
-  | [] => .ofList []
+  | [] => .filter p neg anys      -- no int or str member: fixes/gen-notin-fallback.diff
   | .int _ :: _ => .filter p neg (.ints none none 0 0)
   | .bool _ :: _ => .filter p neg (.ints none none 0 0)
   | .str _ :: _ => .filter p neg .strings
